@@ -283,3 +283,14 @@ Example C01_nonvacuous_header_path :
   verify_ac w_O fixed w_yts w_ac_chain [w_x32768] w_ac_target = HV Accept.
 Proof. split; [exact w_header_accept|exact w_ac_accept]. Qed.
 Print Assumptions C01_nonvacuous_header_path.
+
+(* C01_header_path quantifies over the whole chain, in particular over the canonical header
+   at the height of the header under verification ([frame_ok]: if there is one it has the
+   same hash).  Such a header being present changes nothing: the consensus field is still
+   verified. *)
+Example C01_nonvacuous_same_hash_canonical :
+  by_number w_chain_known 100 = Some w_x100_stored /\ h_hash (x_h w_x100_stored) = h_hash (x_h w_target) /\
+  verify_header w_O fixed 2000 w_yts w_chain_known [] w_target true = HV Accept /\
+  verify_header w_O fixed 2000 w_yts w_chain_known [] (mkXH (w_hdr w_cd_ok w_uv_house) 1000 true 0 false) true = HV EInvalidCD.
+Proof. exact w_same_hash_canonical. Qed.
+Print Assumptions C01_nonvacuous_same_hash_canonical.
